@@ -1,6 +1,7 @@
 #!/bin/bash
 # run one simulation: run1.sh <engine> <seed> [extra env...]
-. /verif/env.sh
-export VERIF_DIR=${VERIF_DIR:-/verif}
+V="$(cd "$(dirname "$0")" && pwd)"
+. "$V/env.sh"
+export VERIF_DIR=${VERIF_DIR:-$V}
 export GODEBUG=asyncpreemptoff=1,randautoseed=0 GOMAXPROCS=1
-VERIF_ENGINE=$1 VERIF_SEED=$2 exec /verif/.build/sim.test -test.run '^TestSim$' -test.cpu 1 -test.timeout 10m
+VERIF_ENGINE=$1 VERIF_SEED=$2 exec "$VERIF_DIR/.build/sim.test" -test.run '^TestSim$' -test.cpu 1 -test.timeout 10m
